@@ -13,6 +13,8 @@ interprocedurally through `const fn` helpers called with constant arguments (`ma
   LEAD      `utf8_first_byte`: the marker OR-ed onto a w-bit field is `0xFF & !((1 << (w+1)) − 1)` (N ones, a zero, the field).
   BIAS      `code_point_from_surrogates`, if written as a packing formula: the value returned is a contiguous 20-bit field
             plus the constant 0x10000 — the addition is applied to the packed field, not to one of its halves.
+  SURRARGS  every call of `code_point_from_surrogates(high, low)` passes as `high` a unit that passed `is_high_surrogate` and as
+            `low` one that passed `is_low_surrogate` on the way to the call (the right-to-left reader names them in reading order).
 Decided here is the bit geometry only (a necessary condition of decoding correctly), not the decoded values.
 """
 import re
@@ -245,4 +247,54 @@ def check(facts):
         else:
             r.fail(key, "%s: supplementary code points are 0x10000 + (high10 << 10 | low10); applying the bias to one half, or OR-ing it in, "
                         "decodes every even plane 0x10000 too low" % why, facts.loc(fn))
+    # SURRARGS: the halves are handed over in the order (high, low), each having passed its predicate
+    ncall = 0
+    for fn in sorted(facts.body_names()):
+        if "::tests::" in fn:
+            continue
+        b = facts.body(fn)
+        dom = None
+        for bb, t in b.iter_calls():
+            if not (t.get("callee") or "").endswith("::code_point_from_surrogates") or len(t["args"]) < 2:
+                continue
+            ncall += 1
+            dom = dom or b.dom()
+            key = "%s hands (high, low) to code_point_from_surrogates #%d" % (fn, ncall)
+            probs = []
+            for ai, pred in ((0, "is_high_surrogate"), (1, "is_low_surrogate")):
+                a = t["args"][ai]
+                if a.get("k") not in ("copy", "move"):
+                    probs.append("argument %d is not a variable" % (ai + 1))
+                    continue
+                root = b.root_of(a["pl"]["l"])[0]
+
+                def same(o):
+                    return o.get("k") in ("copy", "move") and b.root_of(o["pl"]["l"])[0] == root
+                ok = False
+                for sb in dom[bb]:
+                    ts = b.blocks[sb]["t"]
+                    if ts["k"] != "switch" or ts["discr"].get("k") not in ("copy", "move"):
+                        continue
+                    d = b.single_def(ts["discr"]["pl"]["l"])
+                    neg = False
+                    if d and d[2] == "assign" and d[3]["rv"]["k"] == "un" and d[3]["rv"].get("op") == "Not" and d[3]["rv"]["a"].get("k") in ("copy", "move"):
+                        neg = True
+                        d = b.single_def(d[3]["rv"]["a"]["pl"]["l"])
+                    if not d or d[2] != "call" or (d[3].get("callee") or "").split("::")[-1] != pred or not d[3]["args"] or not same(d[3]["args"][0]):
+                        continue
+                    f0 = [tg for v, tg in ts["targets"] if v == 0]
+                    true_edge = f0[0] if (neg and f0) else ts["otherwise"]
+                    if not neg or f0:
+                        if true_edge == bb or true_edge in dom[bb]:
+                            ok = True
+                if not ok:
+                    probs.append("argument %d (`%s`) has not passed %s on the way to the call" % (ai + 1, b.local_name(root) or "_%d" % root, pred))
+            if probs:
+                r.fail(key, "%s (line %s): the halves are swapped or unchecked, so the pair decodes to the wrong supplementary code point "
+                            "(`(?<=\U0001F600)x` fails right-to-left while the forward reader is right)" % ("; ".join(probs), t.get("line")),
+                       facts.loc(fn, t.get("line")))
+            else:
+                r.ok(key, "high passed is_high_surrogate, low passed is_low_surrogate")
+    if facts.config == "utf16":
+        r.floor("surrogate_combinations", ncall, 2)
     return r
